@@ -96,7 +96,7 @@ func (ot *originTracer) origins(v ssa.Value, fn *ssa.Function, out map[string]bo
 			out["copy"] = true
 		case name == "(*sync.Pool).Get":
 			if g, ok := x.Common().Args[0].(*ssa.Global); ok {
-				out["pool:"+g.Name()] = true
+				out["pool:"+nm(g)] = true
 			} else {
 				out["unknown:pool"] = true
 			}
@@ -132,7 +132,7 @@ func (ot *originTracer) origins(v ssa.Value, fn *ssa.Function, out map[string]bo
 		switch a := x.X.(type) {
 		case *ssa.FieldAddr:
 			st := structOf(a.X.Type())
-			tn, f := typeName(a.X.Type()), st.Field(a.Field).Name()
+			tn, f := typeName(a.X.Type()), nm(st.Field(a.Field))
 			if tn == "PrintCtx" {
 				if f == "kvps" {
 					// the value the session stored: what set() assigns last
@@ -166,11 +166,11 @@ func (ot *originTracer) origins(v ssa.Value, fn *ssa.Function, out map[string]bo
 			// *p for pointer parameter p: what callers' cells hold
 			ot.paramOrigins(a, fn, out, depth+1, true)
 		case *ssa.Global:
-			out["global:"+a.Name()] = true
+			out["global:"+nm(a)] = true
 		case *ssa.IndexAddr:
 			out["elem"] = true
 		case *ssa.FreeVar:
-			out["freevar:"+a.Name()] = true
+			out["freevar:"+nm(a)] = true
 		default:
 			out["unknown:load"] = true
 		}
@@ -257,10 +257,10 @@ func (ot *originTracer) paramOrigins(prm *ssa.Parameter, fn *ssa.Function, out m
 	if fn.Origin() != nil {
 		sites = append(sites, ot.m.Callers[fn.Origin()]...)
 	}
-	exported := fn.Parent() == nil && token.IsExported(fn.Name())
+	exported := fn.Parent() == nil && token.IsExported(nm(fn))
 	if exported || len(sites) == 0 {
 		// methods that implement a package interface are entered through dynamic dispatch from inside the package too
-		out["param-of-entry:"+shortName(fn)+"."+prm.Name()] = true
+		out["param-of-entry:"+shortName(fn)+"."+nm(prm)] = true
 	}
 	for _, s := range sites {
 		if idx < 0 || idx >= len(s.Common().Args) {
@@ -278,7 +278,7 @@ func (ot *originTracer) paramOrigins(prm *ssa.Parameter, fn *ssa.Function, out m
 				}
 			case *ssa.FieldAddr:
 				st := structOf(a.X.Type())
-				out["field:"+typeName(a.X.Type())+"."+st.Field(a.Field).Name()] = true
+				out["field:"+typeName(a.X.Type())+"."+nm(st.Field(a.Field))] = true
 			case *ssa.Parameter:
 				ot.paramOrigins(a, s.Parent(), out, depth+1, true)
 			default:
@@ -304,7 +304,7 @@ func (ot *originTracer) pcFieldOrigins(f string, out map[string]bool, depth int)
 			// unconditional store in set(): it is what the session sees, provided it comes after the call of setentry
 			ok := true
 			for _, cs := range callsIn(set) {
-				if cal := calleeOf(cs); cal != nil && cal.Name() == "setentry" {
+				if cal := calleeOf(cs); cal != nil && nm(cal) == "setentry" {
 					for _, d := range direct {
 						if !after(cs, d.Instr) {
 							ok = false
@@ -380,11 +380,11 @@ func c08Stores(c *Ctx, p *Prog, m *Model) {
 							if _, isAlloc := stripNoIface(a.X).(*ssa.Alloc); isAlloc {
 								continue
 							}
-							probs = append(probs, fmt.Sprintf("stores to %s.%s at %s", tn, structOf(a.X.Type()).Field(a.Field).Name(), p.Pos(instrPos(x))))
+							probs = append(probs, fmt.Sprintf("stores to %s.%s at %s", tn, nm(structOf(a.X.Type()).Field(a.Field)), p.Pos(instrPos(x))))
 						}
 					case *ssa.Global:
 						if !underLock(x) {
-							probs = append(probs, fmt.Sprintf("stores to package variable %s at %s", a.Name(), p.Pos(instrPos(x))))
+							probs = append(probs, fmt.Sprintf("stores to package variable %s at %s", nm(a), p.Pos(instrPos(x))))
 						}
 					case *ssa.IndexAddr:
 						ot := &originTracer{p: p, m: m, seen: map[string]bool{}}
@@ -404,7 +404,7 @@ func c08Stores(c *Ctx, p *Prog, m *Model) {
 						// store through a pointer parameter: the pointee must be a caller's local
 						ot := &originTracer{p: p, m: m, seen: map[string]bool{}}
 						if bad := ot.pointeeShared(a, fn); bad != "" {
-							probs = append(probs, fmt.Sprintf("stores through pointer parameter %s whose pointee may be shared (%s) at %s", a.Name(), bad, p.Pos(instrPos(x))))
+							probs = append(probs, fmt.Sprintf("stores through pointer parameter %s whose pointee may be shared (%s) at %s", nm(a), bad, p.Pos(instrPos(x))))
 						}
 					case *ssa.Alloc, *ssa.FreeVar:
 					default:
@@ -476,7 +476,7 @@ func (ot *originTracer) pointeeShared(prm *ssa.Parameter, fn *ssa.Function) stri
 		}
 	}
 	sites := ot.m.Callers[fn]
-	if fn.Parent() == nil && token.IsExported(fn.Name()) || len(sites) == 0 {
+	if fn.Parent() == nil && token.IsExported(nm(fn)) || len(sites) == 0 {
 		if typeName(prm.Type()) == "PrintCtx" || fn.Signature.Recv() != nil && prm == fn.Params[0] {
 			return ""
 		}
@@ -500,7 +500,7 @@ func (ot *originTracer) pointeeShared(prm *ssa.Parameter, fn *ssa.Function) stri
 			if !ot.m.Spine[s.Parent()] && !printTreeHas(ot, s.Parent()) {
 				continue
 			}
-			return "field " + tn + "." + structOf(a.X.Type()).Field(a.Field).Name()
+			return "field " + tn + "." + nm(structOf(a.X.Type()).Field(a.Field))
 		case *ssa.Parameter:
 			if key := fmt.Sprintf("pp/%p", a); !ot.seen[key] {
 				ot.seen[key] = true
@@ -509,7 +509,7 @@ func (ot *originTracer) pointeeShared(prm *ssa.Parameter, fn *ssa.Function) stri
 				}
 			}
 		case *ssa.Global:
-			return "package variable " + a.Name()
+			return "package variable " + nm(a)
 		default:
 			return fmt.Sprintf("%T", a)
 		}
@@ -534,7 +534,7 @@ func c08Pools(c *Ctx, p *Prog, m *Model) {
 	pa := p.Global(p.Slog, "poolAttrs")
 	n := 0
 	for _, fn := range p.RepoFuncs() {
-		if strings.HasPrefix(fn.Name(), "init") {
+		if strings.HasPrefix(nm(fn), "init") {
 			continue
 		}
 		var get, put ssa.CallInstruction
